@@ -196,4 +196,50 @@ example : getUnaligned 16 exU 8 = .ok (valAt 16 exU.words exU.bw 8) :=
     (by decide)
 end NonVacuity
 
+/-! ## (5) `copy` of the blanket impl for plain word vectors -/
+
+/-- `Vec<W>::copy` (full-width slices): in range it never fails, keeps the destination's length, and
+element `i` of the result is `src[from + (i - to)]` inside the clipped window and `dst[i]` outside;
+the window is `min(len, dst.len() - to, src.len() - from)` elements long, *whatever the two lengths* -/
+theorem slice_copy_spec (src dst : List Nat) (f t n : Nat) (hf : f ≤ src.length)
+    (ht : t ≤ dst.length) :
+    ∃ r, sliceCopy src dst f t n = .ok r ∧ r.length = dst.length ∧
+      ∀ i, r[i]? = if t ≤ i ∧ i < t + min (min n (dst.length - t)) (src.length - f)
+        then src[f + (i - t)]? else dst[i]? := by
+  have hc : ¬ (dst.length < t ∨ src.length < f) := by omega
+  refine ⟨dst.take t ++ ((src.drop f).take (min (min n (dst.length - t)) (src.length - f)) ++
+      dst.drop (t + min (min n (dst.length - t)) (src.length - f))),
+    by simp only [sliceCopy, hc, if_false], ?_, ?_⟩
+  · simp only [List.length_append, List.length_take, List.length_drop]
+    omega
+  · intro i
+    generalize hm : min (min n (dst.length - t)) (src.length - f) = m
+    have hm1 : m ≤ dst.length - t := by omega
+    have hm2 : m ≤ src.length - f := by omega
+    by_cases h1 : i < t
+    · have : ¬ (t ≤ i ∧ i < t + m) := by omega
+      rw [if_neg this, List.getElem?_append_left (by simp only [List.length_take]; omega),
+        List.getElem?_take_of_lt h1]
+    · have hl : (dst.take t).length = t := by simp only [List.length_take]; omega
+      rw [List.getElem?_append_right (by omega), hl]
+      have hl2 : ((src.drop f).take m).length = m := by
+        simp only [List.length_take, List.length_drop]; omega
+      by_cases h2 : i < t + m
+      · rw [if_pos ⟨by omega, h2⟩, List.getElem?_append_left (by omega),
+          List.getElem?_take_of_lt (by omega), List.getElem?_drop]
+      · have : ¬ (t ≤ i ∧ i < t + m) := by omega
+        rw [if_neg this, List.getElem?_append_right (by omega), hl2, List.getElem?_drop]
+        congr 1
+        omega
+
+/-- out of range it panics (the subtraction underflows in a checked build) -/
+theorem slice_copy_panics (src dst : List Nat) (f t n : Nat) (h : src.length < f ∨ dst.length < t) :
+    sliceCopy src dst f t n = .panic := by
+  have hc : dst.length < t ∨ src.length < f := by omega
+  simp only [sliceCopy, hc, if_true]
+
+/-- non-vacuity: a 6-element source into a 10-element destination at offset 5 copies 5 elements -/
+example : sliceCopy [10, 11, 12, 13, 14, 15] [0, 1, 2, 3, 4, 5, 6, 7, 8, 9] 0 5 100 =
+    .ok [0, 1, 2, 3, 4, 10, 11, 12, 13, 14] := by decide
+
 end Sux.BFV
